@@ -371,6 +371,8 @@ func describeCall(c *Call) string {
 				ops = append(ops, fmt.Sprintf("get(%d)", o.A))
 			case "itern":
 				ops = append(ops, fmt.Sprintf("iter×%d", o.A))
+			case "fill":
+				ops = append(ops, fmt.Sprintf("fill(%d bits, chunks of %d)", o.N, o.A))
 			default:
 				ops = append(ops, o.Op)
 			}
